@@ -118,8 +118,17 @@ HOSTGLOBAL = [("", "x = 1", "return [hostg ?? \"none\", hostg2 ?? \"none\"]"), (
               ("func f() { return hostg ?? \"none\" }", "hostg = 5", "return f()")]
 
 
+# what a builtin hands out is a fresh value: storing into it changes nothing for the next call, run or environment (read before write: a rerun shows it)
+BUILTIN_RESULTS = [("range1", "r = range(3)\nx = r[2]\nr[2] = x + 5\n[x, range(3), range(2)]"), ("range2", "r = range(1, 4)\nx = r[0]\nr[0] = x + 5\n[x, range(1, 4)]"),
+                   ("range-big", "r = range(1000)\nx = r[999]\nr[999] = x + 1\nr2 = range(1024)\n[x, r2[999], len(r2)]"), ("range-zero", "r = range(0)\nr += 1\n[len(range(0)), r]"),
+                   ("keys", "m = {\"a\": 1}\nk = keys(m)\nx = k[0]\nk[0] = x + \"!\"\n[x, keys(m)]"), ("tobyteslice", "b = toByteSlice(\"abc\")\nx = b[0]\nb[0] = x + 1\n[x, toString(toByteSlice(\"abc\"))]"),
+                   ("torunes", "b = toRuneSlice(\"abc\")\nx = b[0]\nb[0] = x + 1\n[x, toString(toRuneSlice(\"abc\"))]"), ("tointslice", "src = [1, 2]\nb = toIntSlice(src)\nx = b[0]\nb[0] = x + 5\n[x, src, toIntSlice(src)]"),
+                   ("tostringslice", "b = toStringSlice([\"a\"])\nx = b[0]\nb[0] = x + \"!\"\n[x, toStringSlice([\"a\"])]"), ("typeof", "t = typeOf(1)\nu = kindOf(1)\n[t, u, typeOf(t)]"),
+                   ("sort-range", "sort = import(\"sort\")\nr = range(5)\nsort.Slice(r, func(i, j) { return r[i] > r[j] })\n[r, range(5)]"), ("strings-split", "strings = import(\"strings\")\np = strings.Split(\"a,b\", \",\")\nx = p[0]\np[0] = x + \"!\"\n[x, strings.Split(\"a,b\", \",\")]")]
+
+
 def cases():
-    return ([{"id": "raw-" + n, "src": s, "concfirst": True} for n, s in FRESH] + [{"id": "raw-" + n, "src": s} for n, s in GOARGS] +
+    return ([{"id": "raw-builtin-" + n, "src": s, "core": True} for n, s in BUILTIN_RESULTS] + [{"id": "raw-" + n, "src": s, "concfirst": True} for n, s in FRESH] + [{"id": "raw-" + n, "src": s} for n, s in GOARGS] +
             [{"id": "raw-" + n, "src": s} for n, s in RAW] +
             [{"id": "raw-" + n, "src": s, "variants": ["int64", "float64", "string"]} for n, s in VARIANT] +
             [{"id": "raw-envpair-%s-%s" % (n, how), "src": b, "pair": {"s0": s0, "a": a, "how": how}} for n, s0, a, b in ENVPAIRS for how in ("Copy", "DeepCopy", "NestedDeepCopy")] +
